@@ -365,6 +365,9 @@ func (ts *Terms) compute(v ssa.Value, fr *Frame, depth int) *Term {
 					return t
 				}
 			}
+			if t := ts.invokeConstResult(c, fr, x.Index, depth); t != nil {
+				return t
+			}
 		}
 		return ts.extract(ts.of(x.Tuple, fr, depth+1), x.Index)
 	case *ssa.Phi:
@@ -645,6 +648,17 @@ func (ts *Terms) loadBase(addr ssa.Value, fr *Frame, depth int) *Term {
 	switch a := addr.(type) {
 	case *ssa.Alloc:
 		return ts.loadAlloc(a, nil, fr, depth)
+	case *ssa.FreeVar:
+		// a captured variable: the local of the frame that created the literal
+		if fr != nil && fr.MC != nil {
+			for i, fv := range a.Parent().FreeVars {
+				if fv == a && i < len(fr.MC.Bindings) {
+					if al, ok := fr.MC.Bindings[i].(*ssa.Alloc); ok {
+						return ts.loadAlloc(al, nil, fr.Parent, depth)
+					}
+				}
+			}
+		}
 	case *ssa.FieldAddr, *ssa.IndexAddr, *ssa.Global:
 		return ts.load(addr, fr, depth)
 	}
@@ -680,6 +694,56 @@ func (ts *Terms) loadAlloc(a *ssa.Alloc, fld *ssa.FieldAddr, fr *Frame, depth in
 	}
 	for _, st := range wholeSt {
 		whole = append(whole, ts.of(st.Val, fr, depth+1))
+	}
+	// a variable shared by the function literals of one function (the steps of a check list
+	// that load a record in one step and test it in the next): the assignments made through
+	// the captured variable in the sibling literals
+	if depth < 30 {
+		for _, r := range *a.Referrers() {
+			mc, ok := r.(*ssa.MakeClosure)
+			if !ok {
+				continue
+			}
+			cf, _ := mc.Fn.(*ssa.Function)
+			if cf == nil || cf.Blocks == nil {
+				continue
+			}
+			for j, bnd := range mc.Bindings {
+				if bnd != ssa.Value(a) || j >= len(cf.FreeVars) {
+					continue
+				}
+				fv := cf.FreeVars[j]
+				if fv.Referrers() == nil {
+					continue
+				}
+				// the frame of the literal: created by the frame that holds the variable
+				creator := fr
+				for f := fr; f != nil; f = f.Parent {
+					if f.Fn == a.Parent() {
+						creator = f
+						break
+					}
+				}
+				cfr := &Frame{Fn: cf, Parent: creator, MC: mc, Depth: frameDepth(creator) + 1}
+				for _, ur := range *fv.Referrers() {
+					switch y := ur.(type) {
+					case *ssa.Store:
+						if y.Addr == ssa.Value(fv) {
+							whole = append(whole, ts.of(y.Val, cfr, depth+2))
+						}
+					case *ssa.FieldAddr:
+						if fld != nil && y.Field == fld.Field && y.Referrers() != nil {
+							for _, r2 := range *y.Referrers() {
+								if st, ok := r2.(*ssa.Store); ok && st.Addr == ssa.Value(y) {
+									t := ts.of(st.Val, cfr, depth+2)
+									m[t.String()] = t
+								}
+							}
+						}
+					}
+				}
+			}
+		}
 	}
 	for _, st := range fieldSt {
 		t := ts.of(st.Val, fr, depth+1)
@@ -1083,6 +1147,11 @@ func (ts *Terms) call(x *ssa.Call, fr *Frame, depth int) *Term {
 	}
 	if t := ts.mapperCall(x, fr, depth); t != nil {
 		return t
+	}
+	if c.IsInvoke() && c.Signature().Results().Len() == 1 {
+		if t := ts.invokeConstResult(x, fr, 0, depth); t != nil {
+			return t
+		}
 	}
 	arg := func(i int) *Term {
 		if c.IsInvoke() {
@@ -2527,4 +2596,130 @@ func zeroTermOf(ft types.Type) *Term {
 		return mk("const", `""`)
 	}
 	return nil
+}
+
+// dynTypeOf: the one concrete type an interface value has on this chain (a strategy object
+// handed down by the caller: k.toggleFeed(ctx, name, sender, pauseToggle{})); nil if unknown.
+func dynTypeOf(v ssa.Value, fr *Frame, d int) types.Type {
+	if d > 8 || v == nil {
+		return nil
+	}
+	one := func(a *ssa.Alloc) ssa.Value {
+		if a.Referrers() == nil {
+			return nil
+		}
+		var sv ssa.Value
+		n := 0
+		for _, r := range *a.Referrers() {
+			if st, ok := r.(*ssa.Store); ok && st.Addr == ssa.Value(a) {
+				sv = st.Val
+				n++
+			}
+		}
+		if n == 1 {
+			return sv
+		}
+		return nil
+	}
+	switch x := v.(type) {
+	case *ssa.MakeInterface:
+		return x.X.Type()
+	case *ssa.ChangeInterface:
+		return dynTypeOf(x.X, fr, d+1)
+	case *ssa.Parameter:
+		if fr == nil || fr.Call == nil {
+			return nil
+		}
+		cc := fr.Call.Common()
+		for i, p := range x.Parent().Params {
+			if p != x {
+				continue
+			}
+			j := i
+			if cc.IsInvoke() {
+				j--
+			}
+			if j >= 0 && j < len(cc.Args) {
+				return dynTypeOf(cc.Args[j], argsFrame(fr), d+1)
+			}
+		}
+	case *ssa.UnOp:
+		if x.Op != token.MUL {
+			return nil
+		}
+		switch a := x.X.(type) {
+		case *ssa.Alloc:
+			if sv := one(a); sv != nil {
+				return dynTypeOf(sv, fr, d+1)
+			}
+		case *ssa.FreeVar:
+			if fr != nil && fr.MC != nil {
+				for i, fv := range a.Parent().FreeVars {
+					if fv == a && i < len(fr.MC.Bindings) {
+						if al, ok := fr.MC.Bindings[i].(*ssa.Alloc); ok {
+							if sv := one(al); sv != nil {
+								return dynTypeOf(sv, fr.Parent, d+1)
+							}
+						}
+					}
+				}
+			}
+		}
+	}
+	return nil
+}
+
+// invokeConstResult: result idx of a method called through an unexported irismod interface
+// whose implementation is known on this chain and returns constants / pure values
+// (toggle.queues() = (PAUSED, RUNNING)): the value the implementation returns.
+func (ts *Terms) invokeConstResult(x *ssa.Call, fr *Frame, idx int, depth int) *Term {
+	c := x.Common()
+	if !c.IsInvoke() || depth > 30 || frameDepth(fr) >= 14 || fr == nil {
+		return nil
+	}
+	it := namedOf(c.Value.Type())
+	if it == nil || it.Obj().Pkg() == nil || !isIrismodPath(it.Obj().Pkg().Path()) || it.Obj().Exported() {
+		return nil
+	}
+	dt := dynTypeOf(c.Value, fr, 0)
+	if dt == nil || ts.cx == nil || ts.cx.P == nil || ts.cx.P.SSA == nil {
+		return nil
+	}
+	g := ts.cx.P.SSA.LookupMethod(dt, c.Method.Pkg(), c.Method.Name())
+	if g == nil || g.Blocks == nil || !isIrismodFunc(g) || onChain(fr, g) || len(g.Blocks) > 8 || idx >= g.Signature.Results().Len() {
+		return nil
+	}
+	// only implementations that touch no state: a description of the strategy, not an action
+	for _, b := range g.Blocks {
+		for _, ins := range b.Instrs {
+			if ci, ok := ins.(ssa.CallInstruction); ok {
+				if ts.cx.classifyCall(ci) != "" {
+					return nil
+				}
+				if h := ci.Common().StaticCallee(); h != nil && isIrismodFunc(h) && h.Blocks != nil {
+					for k := range ts.cx.transPrimKinds(h) {
+						if strings.HasPrefix(k, "store.") || strings.HasPrefix(k, "bank.") || strings.HasPrefix(k, "ext.") || strings.HasPrefix(k, "nft.") {
+							return nil
+						}
+					}
+				}
+				if ci.Common().IsInvoke() {
+					return nil
+				}
+			}
+		}
+	}
+	nfr := &Frame{Fn: g, Parent: fr, Call: x, Depth: frameDepth(fr) + 1}
+	m := map[string]*Term{}
+	for _, r := range returnsOf(g) {
+		if idx >= len(r.Results) {
+			return nil
+		}
+		t := ts.of(r.Results[idx], nfr, depth+1)
+		m[t.String()] = t
+	}
+	if len(m) == 0 {
+		return nil
+	}
+	return phiOf(m)
 }
